@@ -173,6 +173,10 @@ def check(ctx):
     C27.check_mod_add(ctx, "C36")
     reductions(ctx)
     mux_rules(ctx)
+    from . import c36x
+
+    c36x.counting(ctx)
+    c36x.masks(ctx)
 
 
 MUTANTS = [
